@@ -190,8 +190,8 @@ AttrChoices ==
     {[PlainAttrs EXCEPT !.domain = d] : d \in AttrSet}
     \cup {[PlainAttrs EXCEPT !.path = p] : p \in AttrSet \cup {<<>>}}
     \cup {[PlainAttrs EXCEPT !.samesite = x] : x \in AttrSet \cup {<<76, 97, 120>>}}
-    \cup {[PlainAttrs EXCEPT !.expdays = d, !.expires = x] : d \in {0, 1}, x \in BOOLEAN}
-    \cup {[PlainAttrs EXCEPT !.maxage0 = TRUE]}
+    \cup (IF Flags THEN {[PlainAttrs EXCEPT !.expdays = d, !.expires = x] : d \in {0, 1}, x \in BOOLEAN}
+                           \cup {[PlainAttrs EXCEPT !.maxage0 = TRUE]} ELSE {})
     \cup (IF Flags THEN {[PlainAttrs EXCEPT !.maxage = m, !.httponly = h, !.secure = c, !.expires = x, !.domain = d] :
                            m \in {0, 5}, h \in BOOLEAN, c \in BOOLEAN, x \in BOOLEAN, d \in {<<>>, <<97, 46, 98>>}}
            ELSE {[PlainAttrs EXCEPT !.httponly = TRUE, !.maxage = 5]})
